@@ -15,16 +15,16 @@ import time
 
 import z3
 
-NPROC = int(os.environ.get("VERIF_NPROC", "16"))
+NPROC = int(os.environ.get("VERIF_NPROC", str(min(16, os.cpu_count() or 4))))
 
 
 PORTFOLIO = [
     # (abstract strings?, options, share of the budget)
-    (True, {"smt.mbqi": False}, 0.3),
+    (True, {"smt.mbqi": False}, 0.25),
+    (True, {"smt.mbqi": False, "smt.qi.eager_threshold": 100.0}, 0.2),
     (True, {"smt.qi.eager_threshold": 100.0}, 0.1),
     (True, {}, 0.1),
-    (True, {"smt.mbqi": False, "smt.qi.eager_threshold": 100.0}, 0.1),
-    (False, {}, 0.2),
+    (False, {}, 0.15),
     (False, {"smt.qi.eager_threshold": 100.0}, 0.1),
     (False, {"smt.mbqi": False}, 0.1),
 ]
